@@ -373,7 +373,7 @@ class LogicalFile:
             coordinates=coordinates,
             spacing=spacing,
             parent=parent,
-            origin_reference=origin_reference or self.default_origin_reference,
+            origin_reference=self.default_origin_reference if origin_reference is None else origin_reference,
         )
 
         return ax
@@ -449,7 +449,7 @@ class LogicalFile:
             parameters=parameters,
             method=method,
             parent=parent,
-            origin_reference=origin_reference or self.default_origin_reference,
+            origin_reference=self.default_origin_reference if origin_reference is None else origin_reference,
         )
 
         return c
@@ -528,7 +528,7 @@ class LogicalFile:
             plus_tolerances=plus_tolerances,
             minus_tolerances=minus_tolerances,
             parent=parent,
-            origin_reference=origin_reference or self.default_origin_reference,
+            origin_reference=self.default_origin_reference if origin_reference is None else origin_reference,
         )
 
         return c
@@ -670,7 +670,7 @@ class LogicalFile:
             plus_tolerance=plus_tolerance,
             minus_tolerance=minus_tolerance,
             parent=parent,
-            origin_reference=origin_reference or self.default_origin_reference,
+            origin_reference=self.default_origin_reference if origin_reference is None else origin_reference,
         )
 
         return m
@@ -760,7 +760,7 @@ class LogicalFile:
             maximum_value=maximum_value,
             source=source,
             parent=parent,
-            origin_reference=origin_reference or self.default_origin_reference,
+            origin_reference=self.default_origin_reference if origin_reference is None else origin_reference,
         )
 
         if data is not None:
@@ -825,7 +825,7 @@ class LogicalFile:
             name=name,
             text=text,
             parent=parent,
-            origin_reference=origin_reference or self.default_origin_reference,
+            origin_reference=self.default_origin_reference if origin_reference is None else origin_reference,
         )
 
         return c
@@ -897,7 +897,7 @@ class LogicalFile:
             values=values,
             source=source,
             parent=parent,
-            origin_reference=origin_reference or self.default_origin_reference,
+            origin_reference=self.default_origin_reference if origin_reference is None else origin_reference,
         )
 
         return c
@@ -1014,7 +1014,7 @@ class LogicalFile:
             radial_drift=radial_drift,
             angular_drift=angular_drift,
             parent=parent,
-            origin_reference=origin_reference or self.default_origin_reference,
+            origin_reference=self.default_origin_reference if origin_reference is None else origin_reference,
         )
 
         return eq
@@ -1127,7 +1127,7 @@ class LogicalFile:
             index_min=index_min,
             index_max=index_max,
             parent=parent,
-            origin_reference=origin_reference or self.default_origin_reference,
+            origin_reference=self.default_origin_reference if origin_reference is None else origin_reference,
         )
 
         return fr
@@ -1173,7 +1173,7 @@ class LogicalFile:
             parent=self.physical_file._eflr_sets.get_or_make_set(
                 eflr_types.GroupSet, set_name=set_name
             ),
-            origin_reference=origin_reference or self.default_origin_reference,
+            origin_reference=self.default_origin_reference if origin_reference is None else origin_reference,
         )
 
         return g
@@ -1273,7 +1273,7 @@ class LogicalFile:
             standard_symbol=standard_symbol,
             private_symbol=private_symbol,
             parent=parent,
-            origin_reference=origin_reference or self.default_origin_reference,
+            origin_reference=self.default_origin_reference if origin_reference is None else origin_reference,
         )
 
         return ln
@@ -1324,7 +1324,7 @@ class LogicalFile:
             angular_drift=angular_drift,
             text=text,
             parent=parent,
-            origin_reference=origin_reference or self.default_origin_reference,
+            origin_reference=self.default_origin_reference if origin_reference is None else origin_reference,
         )
 
         return m
@@ -1373,7 +1373,7 @@ class LogicalFile:
             consumer_name=consumer_name,
             description=description,
             parent=parent,
-            origin_reference=origin_reference or self.default_origin_reference,
+            origin_reference=self.default_origin_reference if origin_reference is None else origin_reference,
         )
 
         return nf
@@ -1404,7 +1404,7 @@ class LogicalFile:
     ) -> int:
         origins_refs = [o.origin_reference for o in origins]
         next_available_origin_ref: int = 0
-        if origin_reference:
+        if origin_reference is not None:  # (0 is a reference like any other)
             next_available_origin_ref = origin_reference
             if origin_reference in origins_refs:
                 raise RuntimeError(
@@ -1546,7 +1546,7 @@ class LogicalFile:
 
         o = eflr_types.OriginItem(
             name=name,
-            origin_reference=origin_reference or new_origin_ref,
+            origin_reference=new_origin_ref if origin_reference is None else origin_reference,
             file_set_number=file_set_number,
             file_set_name=file_set_name,
             file_id=self.file_header.header_id,
@@ -1642,7 +1642,7 @@ class LogicalFile:
             zones=zones,
             values=values,
             parent=parent,
-            origin_reference=origin_reference or self.default_origin_reference,
+            origin_reference=self.default_origin_reference if origin_reference is None else origin_reference,
         )
 
         return p
@@ -1765,7 +1765,7 @@ class LogicalFile:
             measure_point_offset=measure_point_offset,
             tool_zero_offset=tool_zero_offset,
             parent=parent,
-            origin_reference=origin_reference or self.default_origin_reference,
+            origin_reference=self.default_origin_reference if origin_reference is None else origin_reference,
         )
 
         return p
@@ -1841,7 +1841,7 @@ class LogicalFile:
             parameters=parameters,
             comments=comments,
             parent=parent,
-            origin_reference=origin_reference or self.default_origin_reference,
+            origin_reference=self.default_origin_reference if origin_reference is None else origin_reference,
         )
 
         return p
@@ -1893,7 +1893,7 @@ class LogicalFile:
             input_channels=input_channels,
             zones=zones,
             parent=parent,
-            origin_reference=origin_reference or self.default_origin_reference,
+            origin_reference=self.default_origin_reference if origin_reference is None else origin_reference,
         )
 
         return sp
@@ -1954,7 +1954,7 @@ class LogicalFile:
             channels=channels,
             parameters=parameters,
             parent=parent,
-            origin_reference=origin_reference or self.default_origin_reference,
+            origin_reference=self.default_origin_reference if origin_reference is None else origin_reference,
         )
 
         return t
@@ -2044,7 +2044,7 @@ class LogicalFile:
             coordinate_3_name=coordinate_3_name,
             coordinate_3_value=coordinate_3_value,
             parent=parent,
-            origin_reference=origin_reference or self.default_origin_reference,
+            origin_reference=self.default_origin_reference if origin_reference is None else origin_reference,
         )
 
         return w
@@ -2105,7 +2105,7 @@ class LogicalFile:
             parent=self.physical_file._eflr_sets.get_or_make_set(
                 eflr_types.ZoneSet, set_name=set_name
             ),
-            origin_reference=origin_reference or self.default_origin_reference,
+            origin_reference=self.default_origin_reference if origin_reference is None else origin_reference,
         )
 
         return z
